@@ -97,6 +97,14 @@ Print Assumptions C07_credits_routed.
 Print Assumptions C07_progress.
 Print Assumptions C07_progress_terminates.
 
+(* a K-frame costs a credit: what the two sender entry points put on the wire is
+   paid for one credit per frame (and by C07_credit_safe the balance stays >= 0) *)
+Theorem C07_frame_costs_credit : forall s d n,
+  (let '(s', fs) := s_write s d in s_credits s' = s_credits s - zlen fs) /\
+  (let '(s', fs) := s_on_credits s n in s_credits s' = s_credits s + n - zlen fs).
+Proof. intros s d n. split; [exact (s_write_credits s d)|exact (s_on_credits_credits s n)]. Qed.
+Print Assumptions C07_frame_costs_credit.
+
 (* ---- one direction of a channel (sender half, receiver half, frames one way,
    credits the other): the inductive invariant and termination of deliveries *)
 Theorem C07_view_invariant : forall credits mtu mps ls,
